@@ -234,6 +234,12 @@ BAD_DATES = {  # label -> (from, until)
     "nondigit": (bytes([0, 10, 0, 1, 0, 1]), ymd(25, 1, 1)), "nondigit-day": (bytes([2, 3, 0, 12, 2, 11]), ymd(25, 1, 1)),
     "until-nondigit": (ymd(22, 1, 1), bytes([2, 5, 0, 1, 0, 0x31])),
 }
+# an octet above 9 at each of the six positions, chosen so that the number it forms with its neighbour is still a legal
+# year / month / day where that is possible (month "0,11" = 11, day "1,15" = 25): only the digit test can refuse it
+for _i, _d in enumerate(([10, 0, 0, 1, 0, 1], [2, 12, 0, 1, 0, 1], [2, 2, 10, 0, 0, 1], [2, 2, 0, 11, 0, 1], [2, 2, 0, 1, 10, 0],
+                         [2, 5, 0, 1, 1, 15])):
+    BAD_DATES["from-octet%d>9" % _i] = (bytes(_d), ymd(99, 12, 31))
+    BAD_DATES["until-octet%d>9" % _i] = (ymd(20, 1, 1), bytes(_d))
 
 
 def cvc_viol(ctx, key, what, det):
@@ -742,6 +748,30 @@ def unit_sm(ctx):
         dg = []
         n_eval = 0
         det0 = {"key": key, "cdf_len": cdf_len, "rdf_len": rdf_len}
+        # no SM state (btok.h: "only encoding, without protection"): the plain command / response of this Lc/Le form must
+        # be encoded and recovered unchanged as well
+        cdf0 = bytes(rr.randrange(256) for _ in range(cdf_len))
+        cmd0 = (cla, hdr[0], hdr[1], hdr[2], rdf_len, cdf_len, cdf0)
+        e0, ap0 = cmd_wrap(lib, mk_cmd(lib, cla, hdr[0], hdr[1], hdr[2], rdf_len, cdf0), 0)
+        if e0 != 0:
+            ctx.violation("btokSMCmdWrap:valid-refused:no-state:Lc=%s,Le=%s" % (lcform, leform), errname(e0), dict(det0, cmd=cmd0))
+        else:
+            d0, g0 = cmd_unwrap(lib, ap0, 0)
+            if d0 != 0 or g0 != cmd0:
+                ctx.violation("btokSMCmdUnwrap:not-recovered:no-state:Lc=%s,Le=%s" % (lcform, leform),
+                              "plain command: %s, got %r" % (errname(d0), g0), dict(det0, cmd=cmd0, apdu=ap0))
+        rdf0 = bytes(rr.randrange(256) for _ in range(min(rdf_len, 300)))
+        e1, rp0 = resp_wrap(lib, mk_resp(lib, 0x90, 0x00, rdf0), 0)
+        if e1 != 0:
+            ctx.violation("btokSMRespWrap:valid-refused:no-state", errname(e1), dict(det0, rdf=rdf0))
+        else:
+            d1, g1 = resp_unwrap(lib, rp0, 0)
+            if d1 != 0 or g1 != (0x90, 0x00, len(rdf0), rdf0):
+                ctx.violation("btokSMRespUnwrap:not-recovered:no-state", "plain response: %s, got %r" % (errname(d1), g1),
+                              dict(det0, rdf=rdf0, apdu=rp0))
+        dg += [e0, ap0, e1, rp0]
+        n_eval += 4
+        tag(ctx, "sm:no-state")
         for pair in range(npairs):
             # dialogue lengths vary inside the sequence around the scenario's lengths
             cl = cdf_len if pair == 0 else max(0, min(300, cdf_len + rr.randrange(-2, 3)))
